@@ -373,7 +373,7 @@ def run(ctx):
     exe = dv.build_harness('h_cvec', ['h_cvec.cpp'], need_lib=False, extra_flags=('-Wl,--wrap=free', '-Wl,--wrap=malloc'))
     ctx.phase('build')
     r = ctx.rng
-    ncase = 140 if ctx.quick else 6000
+    ncase = 140 if ctx.quick else 2500
     cases = [(nm, ts, ops) for nm, ts, ops in witnesses()]
     nwit = len(cases)
     k = 0
@@ -428,8 +428,8 @@ def run(ctx):
                 what.append('contents/size differ from std::vector')
             if not pos:
                 what.append('a returned position differs from std::vector')
-            if not pos_erase and not (agree and dom_e):
-                what.append('erase returned position differs from std::vector AND from the modelled behaviour')
+            if not pos_erase:
+                what.append('(a shifting erase also returned the new end(), as in the known finding)')
             if not life:
                 what.append('element lifetimes are not balanced (final ledger cv cc cm ac am d live moved e0..e4 = %s)' % p['final'][:13])
             if not agree:
